@@ -40,6 +40,100 @@ theorem rd_wr (m : Mem) (a b : Nat) (v : UInt8) : (m.wr a v).rd b = if b = a the
   unfold Mem.wr; split
   · rfl
   · split <;> rfl
+
+/-! ## the access logs: `wr` logs its address in `wlog`, `note`/`noteWord` log in `rlog`, nothing else moves -/
+
+@[simp] theorem rlog_wr (m : Mem) (a : Nat) (v : UInt8) : (m.wr a v).rlog = m.rlog := by
+  unfold Mem.wr; split
+  · rfl
+  · split <;> rfl
+
+@[simp] theorem wlog_wr (m : Mem) (a : Nat) (v : UInt8) : (m.wr a v).wlog = a :: m.wlog := by
+  unfold Mem.wr; split
+  · rfl
+  · split <;> rfl
+
+@[simp] theorem rd_note (m : Mem) (a x : Nat) : (m.note a).rd x = m.rd x := rfl
+@[simp] theorem bad_note (m : Mem) (a : Nat) : (m.note a).bad = m.bad := rfl
+@[simp] theorem rlog_note (m : Mem) (a : Nat) : (m.note a).rlog = a :: m.rlog := rfl
+@[simp] theorem wlog_note (m : Mem) (a : Nat) : (m.note a).wlog = m.wlog := rfl
+@[simp] theorem rd_noteWord (m : Mem) (a x : Nat) : (noteWord m a).rd x = m.rd x := rfl
+@[simp] theorem bad_noteWord (m : Mem) (a : Nat) : (noteWord m a).bad = m.bad := rfl
+@[simp] theorem wlog_noteWord (m : Mem) (a : Nat) : (noteWord m a).wlog = m.wlog := rfl
+theorem rlog_noteWord (m : Mem) (a : Nat) : (noteWord m a).rlog =
+    (a + 7) :: (a + 6) :: (a + 5) :: (a + 4) :: (a + 3) :: (a + 2) :: (a + 1) :: a :: m.rlog := rfl
+@[simp] theorem rdWord_noteWord (m : Mem) (a s : Nat) : rdWord (noteWord m a) s = rdWord m s := rfl
+
+/-- `m'` came from `m0` by loads at addresses in `[rlo, rhi)` and stores at addresses in `[wlo, whi)` only:
+every entry of the logs of `m'` is an entry of the logs of `m0` or lies in the respective range -/
+def Acc (m0 m' : Mem) (rlo rhi wlo whi : Nat) : Prop :=
+  (∀ a, a ∈ m'.rlog → a ∈ m0.rlog ∨ (rlo ≤ a ∧ a < rhi)) ∧
+  (∀ a, a ∈ m'.wlog → a ∈ m0.wlog ∨ (wlo ≤ a ∧ a < whi))
+
+theorem Acc.refl (m : Mem) (rlo rhi wlo whi : Nat) : Acc m m rlo rhi wlo whi :=
+  ⟨fun _ h => Or.inl h, fun _ h => Or.inl h⟩
+
+/-- composition with widening of the ranges -/
+theorem Acc.comp {m0 m1 m2 : Mem} {rl1 rh1 wl1 wh1 rl2 rh2 wl2 wh2 rl rh wl wh : Nat}
+    (h1 : Acc m0 m1 rl1 rh1 wl1 wh1) (h2 : Acc m1 m2 rl2 rh2 wl2 wh2)
+    (hr1 : rl ≤ rl1 ∧ rh1 ≤ rh) (hr2 : rl ≤ rl2 ∧ rh2 ≤ rh) (hw1 : wl ≤ wl1 ∧ wh1 ≤ wh) (hw2 : wl ≤ wl2 ∧ wh2 ≤ wh) :
+    Acc m0 m2 rl rh wl wh := by
+  refine ⟨fun a ha => ?_, fun a ha => ?_⟩
+  · rcases h2.1 a ha with h | h
+    · rcases h1.1 a h with h | h
+      · exact Or.inl h
+      · exact Or.inr (by omega)
+    · exact Or.inr (by omega)
+  · rcases h2.2 a ha with h | h
+    · rcases h1.2 a h with h | h
+      · exact Or.inl h
+      · exact Or.inr (by omega)
+    · exact Or.inr (by omega)
+
+theorem wlog_wrWord (m : Mem) (a w : Nat) : (wrWord m a w).wlog =
+    (a + 7) :: (a + 6) :: (a + 5) :: (a + 4) :: (a + 3) :: (a + 2) :: (a + 1) :: a :: m.wlog := by
+  simp [wrWord]
+
+@[simp] theorem rlog_wrWord (m : Mem) (a w : Nat) : (wrWord m a w).rlog = m.rlog := by
+  simp [wrWord]
+
+/-- one byte copied: a load at `s`, a store at `d` -/
+theorem Acc.byte (m : Mem) (d s : Nat) (v : UInt8) : Acc m ((m.note s).wr d v) s (s + 1) d (d + 1) := by
+  refine ⟨fun a ha => ?_, fun a ha => ?_⟩
+  · simp only [rlog_wr, rlog_note, List.mem_cons] at ha
+    rcases ha with h | h
+    · exact Or.inr (by omega)
+    · exact Or.inl h
+  · simp only [wlog_wr, wlog_note, List.mem_cons] at ha
+    rcases ha with h | h
+    · exact Or.inr (by omega)
+    · exact Or.inl h
+
+/-- one word copied: loads at `s .. s+7`, stores at `d .. d+7` -/
+theorem Acc.word (m : Mem) (d s w : Nat) : Acc m (wrWord (noteWord m s) d w) s (s + 8) d (d + 8) := by
+  refine ⟨fun a ha => ?_, fun a ha => ?_⟩
+  · simp only [rlog_wrWord, rlog_noteWord, List.mem_cons] at ha
+    rcases ha with h | h | h | h | h | h | h | h | h
+    all_goals first | exact Or.inl h | exact Or.inr (by omega)
+  · simp only [wlog_wrWord, wlog_noteWord, List.mem_cons] at ha
+    rcases ha with h | h | h | h | h | h | h | h | h
+    all_goals first | exact Or.inl h | exact Or.inr (by omega)
+
+/-- one byte / one word stored, nothing loaded -/
+theorem Acc.setByte (m : Mem) (d : Nat) (v : UInt8) : Acc m (m.wr d v) 0 0 d (d + 1) := by
+  refine ⟨fun a ha => ?_, fun a ha => ?_⟩
+  · simp only [rlog_wr] at ha; exact Or.inl ha
+  · simp only [wlog_wr, List.mem_cons] at ha
+    rcases ha with h | h
+    · exact Or.inr (by omega)
+    · exact Or.inl h
+
+theorem Acc.setWord (m : Mem) (d w : Nat) : Acc m (wrWord m d w) 0 0 d (d + 8) := by
+  refine ⟨fun a ha => ?_, fun a ha => ?_⟩
+  · simp only [rlog_wrWord] at ha; exact Or.inl ha
+  · simp only [wlog_wrWord, List.mem_cons] at ha
+    rcases ha with h | h | h | h | h | h | h | h | h
+    all_goals first | exact Or.inl h | exact Or.inr (by omega)
 /-! ## word access -/
 
 theorem rd_wrWord (m : Mem) (a w x : Nat) :
@@ -87,21 +181,23 @@ theorem byteOf_rdWord (m : Mem) (s j : Nat) (hj : j < 8) : byteOf (rdWord m s) j
 /-- `m'` is `m0` after a `memmove`-semantics copy of `r` bytes from `s` to `d`: the destination range holds
 the *original* source bytes, every other address is unchanged, and no bad event was recorded -/
 def Blit (m0 m' : Mem) (d s r : Nat) : Prop :=
-  m'.bad = m0.bad ∧ ∀ x, m'.rd x = if d ≤ x ∧ x < d + r then m0.rd (s + (x - d)) else m0.rd x
+  m'.bad = m0.bad ∧ (∀ x, m'.rd x = if d ≤ x ∧ x < d + r then m0.rd (s + (x - d)) else m0.rd x) ∧
+  Acc m0 m' s (s + r) d (d + r)
 
 theorem Blit.zero (m : Mem) (d s : Nat) : Blit m m d s 0 :=
-  ⟨rfl, fun x => by rw [if_neg (by omega)]⟩
+  ⟨rfl, fun x => by rw [if_neg (by omega)], Acc.refl _ _ _ _ _⟩
 
 theorem Blit.fwd_comp {m0 m1 m2 : Mem} {d s a d' s' b r : Nat}
     (h1 : Blit m0 m1 d s a) (h2 : Blit m1 m2 d' s' b) (hd : d' = d + a) (hs : s' = s + a) (hr : r = a + b)
     (hz : d ≤ s ∨ s + r ≤ d) : Blit m0 m2 d s r := by
   subst hd hs hr
-  refine ⟨h2.1.trans h1.1, fun x => ?_⟩
-  rw [h2.2 x]
+  refine ⟨h2.1.trans h1.1, fun x => ?_,
+    Acc.comp h1.2.2 h2.2.2 (by omega) (by omega) (by omega) (by omega)⟩
+  rw [h2.2.1 x]
   by_cases hx : d + a ≤ x ∧ x < d + a + b
-  · rw [if_pos hx, h1.2, if_neg (by omega), if_pos (by omega)]
+  · rw [if_pos hx, h1.2.1, if_neg (by omega), if_pos (by omega)]
     congr 1; omega
-  · rw [if_neg hx, h1.2 x]
+  · rw [if_neg hx, h1.2.1 x]
     by_cases hx2 : d ≤ x ∧ x < d + a
     · rw [if_pos hx2, if_pos (by omega)]
     · rw [if_neg hx2, if_neg (by omega)]
@@ -110,19 +206,20 @@ theorem Blit.bwd_comp {m0 m1 m2 : Mem} {d s a d' s' b r : Nat}
     (h1 : Blit m0 m1 d' s' b) (h2 : Blit m1 m2 d s a) (hd : d' = d + a) (hs : s' = s + a) (hr : r = a + b)
     (hz : s ≤ d ∨ d + r ≤ s) : Blit m0 m2 d s r := by
   subst hd hs hr
-  refine ⟨h2.1.trans h1.1, fun x => ?_⟩
-  rw [h2.2 x]
+  refine ⟨h2.1.trans h1.1, fun x => ?_,
+    Acc.comp h1.2.2 h2.2.2 (by omega) (by omega) (by omega) (by omega)⟩
+  rw [h2.2.1 x]
   by_cases hx : d ≤ x ∧ x < d + a
-  · rw [if_pos hx, h1.2, if_neg (by omega), if_pos (by omega)]
-  · rw [if_neg hx, h1.2 x]
+  · rw [if_pos hx, h1.2.1, if_neg (by omega), if_pos (by omega)]
+  · rw [if_neg hx, h1.2.1 x]
     by_cases hx2 : d + a ≤ x ∧ x < d + a + b
     · rw [if_pos hx2, if_pos (by omega)]
       congr 1; omega
     · rw [if_neg hx2, if_neg (by omega)]
 
-theorem Blit.byte (m : Mem) (d s : Nat) : Blit m (m.wr d (m.rd s)) d s 1 := by
-  refine ⟨by simp, fun x => ?_⟩
-  rw [rd_wr]
+theorem Blit.byte (m : Mem) (d s : Nat) : Blit m ((m.note s).wr d ((m.note s).rd s)) d s 1 := by
+  refine ⟨by simp, fun x => ?_, Acc.byte m d s _⟩
+  rw [rd_wr, rd_note, rd_note]
   by_cases hx : x = d
   · subst hx; rw [if_pos rfl, if_pos (by omega)]; congr 1; omega
   · rw [if_neg hx, if_neg (by omega)]
@@ -130,9 +227,10 @@ theorem Blit.byte (m : Mem) (d s : Nat) : Blit m (m.wr d (m.rd s)) d s 1 := by
 theorem chkAligned_of (m : Mem) (a : Nat) (h : a % 8 = 0) : chkAligned m a = m := by
   unfold chkAligned; rw [if_pos h]
 
-theorem Blit.word (m : Mem) (d s : Nat) : Blit m (wrWord m d (rdWord m s)) d s 8 := by
-  refine ⟨by simp, fun x => ?_⟩
-  rw [rd_wrWord]
+theorem Blit.word (m : Mem) (d s : Nat) :
+    Blit m (wrWord (noteWord m s) d (rdWord (noteWord m s) s)) d s 8 := by
+  refine ⟨by simp, fun x => ?_, Acc.word m d s _⟩
+  rw [rd_wrWord, rdWord_noteWord, rd_noteWord]
   by_cases hx : d ≤ x ∧ x < d + 8
   · rw [if_pos hx, if_pos hx, byteOf_rdWord _ _ _ (by omega)]
   · rw [if_neg hx, if_neg hx]
@@ -230,7 +328,7 @@ theorem copyBackwardBytesLoop_spec : ∀ (f : Nat) (m : Mem) (dest src r : Nat),
     · subst h0; simp only [Nat.sub_zero, Nat.lt_irrefl, if_false]; exact Blit.zero m dest src
     · rw [if_pos (by omega)]
       have e : dest - r = (dest - 1) - (r - 1) := by omega
-      have ih' := ih (m.wr (dest - 1) (m.rd (src - 1))) (dest - 1) (src - 1) (r - 1) (by omega) (by omega) (by omega) (by omega)
+      have ih' := ih ((m.note (src - 1)).wr (dest - 1) ((m.note (src - 1)).rd (src - 1))) (dest - 1) (src - 1) (r - 1) (by omega) (by omega) (by omega) (by omega)
       have e2 : src - r = (src - 1) - (r - 1) := by omega
       rw [← e, ← e2] at ih'
       exact Blit.bwd_comp (d := dest - r) (s := src - r) (a := r - 1) (b := 1) (Blit.byte m (dest - 1) (src - 1)) ih'
@@ -264,7 +362,7 @@ theorem copyBackwardAlignedWordsLoop_spec : ∀ (f : Nat) (m : Mem) (dest src k 
       simp only [chkAligned_of _ _ a1, chkAligned_of _ _ a2]
       have e : dest - 8 * k = (dest - 8) - 8 * (k - 1) := by omega
       have e2 : src - 8 * k = (src - 8) - 8 * (k - 1) := by omega
-      have ih' := ih (wrWord m (dest - 8) (rdWord m (src - 8))) (dest - 8) (src - 8) (k - 1)
+      have ih' := ih (wrWord (noteWord m (src - 8)) (dest - 8) (rdWord (noteWord m (src - 8)) (src - 8))) (dest - 8) (src - 8) (k - 1)
         (by omega) (by omega) (by omega) a2 a1 (by omega)
       rw [← e, ← e2] at ih'
       exact Blit.bwd_comp (d := dest - 8 * k) (s := src - 8 * k) (a := 8 * (k - 1)) (b := 8)
@@ -292,7 +390,7 @@ theorem copyBackwardMisalignedWordsLoop_spec : ∀ (f : Nat) (m : Mem) (dest src
       simp only [chkAligned_of _ _ a2]
       have e : dest - 8 * k = (dest - 8) - 8 * (k - 1) := by omega
       have e2 : src - 8 * k = (src - 8) - 8 * (k - 1) := by omega
-      have ih' := ih (wrWord m (dest - 8) (rdWord m (src - 8))) (dest - 8) (src - 8) (k - 1)
+      have ih' := ih (wrWord (noteWord m (src - 8)) (dest - 8) (rdWord (noteWord m (src - 8)) (src - 8))) (dest - 8) (src - 8) (k - 1)
         (by omega) (by omega) (by omega) a2 (by omega)
       rw [← e, ← e2] at ih'
       exact Blit.bwd_comp (d := dest - 8 * k) (s := src - 8 * k) (a := 8 * (k - 1)) (b := 8)
@@ -400,25 +498,26 @@ theorem memmove_blit (m : Mem) (dest src n : Nat) (hd : dest + n ≤ TWO64) (hs 
 
 /-- `m'` is `m0` with `[d, d+r)` filled with `c`, everything else unchanged, no bad event -/
 def Filled (m0 m' : Mem) (d : Nat) (c : UInt8) (r : Nat) : Prop :=
-  m'.bad = m0.bad ∧ ∀ x, m'.rd x = if d ≤ x ∧ x < d + r then c else m0.rd x
+  m'.bad = m0.bad ∧ (∀ x, m'.rd x = if d ≤ x ∧ x < d + r then c else m0.rd x) ∧ Acc m0 m' 0 0 d (d + r)
 
 theorem Filled.zero (m : Mem) (d : Nat) (c : UInt8) : Filled m m d c 0 :=
-  ⟨rfl, fun x => by rw [if_neg (by omega)]⟩
+  ⟨rfl, fun x => by rw [if_neg (by omega)], Acc.refl _ _ _ _ _⟩
 
 theorem Filled.comp {m0 m1 m2 : Mem} {d d' a b r : Nat} {c : UInt8}
     (h1 : Filled m0 m1 d c a) (h2 : Filled m1 m2 d' c b) (hd : d' = d + a) (hr : r = a + b) : Filled m0 m2 d c r := by
   subst hd hr
-  refine ⟨h2.1.trans h1.1, fun x => ?_⟩
-  rw [h2.2 x]
+  refine ⟨h2.1.trans h1.1, fun x => ?_,
+    Acc.comp h1.2.2 h2.2.2 (by omega) (by omega) (by omega) (by omega)⟩
+  rw [h2.2.1 x]
   by_cases hx : d + a ≤ x ∧ x < d + a + b
   · rw [if_pos hx, if_pos (by omega)]
-  · rw [if_neg hx, h1.2 x]
+  · rw [if_neg hx, h1.2.1 x]
     by_cases hx2 : d ≤ x ∧ x < d + a
     · rw [if_pos hx2, if_pos (by omega)]
     · rw [if_neg hx2, if_neg (by omega)]
 
 theorem Filled.byte (m : Mem) (d : Nat) (c : UInt8) : Filled m (m.wr d c) d c 1 := by
-  refine ⟨by simp, fun x => ?_⟩
+  refine ⟨by simp, fun x => ?_, Acc.setByte m d c⟩
   rw [rd_wr]
   by_cases hx : x = d
   · subst hx; rw [if_pos rfl, if_pos (by omega)]
@@ -432,7 +531,7 @@ theorem byteOf_broadcast (c : UInt8) (j : Nat) (hj : j < 8) : byteOf (broadcast 
   rw [broadcast_table c.toNat c.toNat_lt j hj, UInt8.ofNat_toNat]
 
 theorem Filled.word (m : Mem) (d : Nat) (c : UInt8) : Filled m (wrWord m d (broadcast c)) d c 8 := by
-  refine ⟨by simp, fun x => ?_⟩
+  refine ⟨by simp, fun x => ?_, Acc.setWord m d _⟩
   rw [rd_wrWord]
   by_cases hx : d ≤ x ∧ x < d + 8
   · rw [if_pos hx, if_pos hx, byteOf_broadcast _ _ (by omega)]
@@ -507,37 +606,81 @@ def CmpPost (m : Mem) (s1 s2 n : Nat) : Option Int → Prop
     (∃ p, p < n ∧ (∀ j, j < p → m.rd (s1 + j) = m.rd (s2 + j)) ∧ m.rd (s1 + p) ≠ m.rd (s2 + p) ∧
       v = ((m.rd (s1 + p)).toNat : Int) - ((m.rd (s2 + p)).toNat : Int))
 
-theorem compareBytesLoop_spec (m : Mem) (s1 s2 n : Nat) : ∀ (f i : Nat), n - i ≤ f → i ≤ n →
-    (∀ j, j < i → m.rd (s1 + j) = m.rd (s2 + j)) → CmpPost m s1 s2 n (compareBytesLoop f m s1 s2 n i) := by
+theorem CmpPost_note (m : Mem) (a s1 s2 n : Nat) (r : Option Int) :
+    CmpPost (m.note a) s1 s2 n r ↔ CmpPost m s1 s2 n r := Iff.rfl
+
+theorem compareBytesLoop_spec (s1 s2 n : Nat) : ∀ (f : Nat) (m : Mem) (i : Nat), n - i ≤ f → i ≤ n →
+    (∀ j, j < i → m.rd (s1 + j) = m.rd (s2 + j)) → CmpPost m s1 s2 n (compareBytesLoop f m s1 s2 n i).2 := by
   intro f
   induction f with
   | zero =>
-    intro i hf hi hpre
+    intro m i hf hi hpre
     have : i = n := by omega
     subst this
     simp only [compareBytesLoop, Nat.lt_irrefl, if_false]
     exact Or.inl ⟨rfl, hpre⟩
   | succ f ih =>
-    intro i hf hi hpre
+    intro m i hf hi hpre
     unfold compareBytesLoop
     by_cases hlt : i < n
     · rw [if_pos hlt]
       simp only []
-      by_cases hab : m.rd (s1 + i) = m.rd (s2 + i)
-      · rw [if_neg (by simpa using hab)]
-        apply ih (i + 1) (by omega) (by omega)
+      split
+      · next hne =>
+        have hab : m.rd (s1 + i) ≠ m.rd (s2 + i) := hne
+        exact Or.inr ⟨i, hlt, hpre, hab, rfl⟩
+      · next heq =>
+        have hab : m.rd (s1 + i) = m.rd (s2 + i) := Classical.not_not.mp heq
+        rw [← CmpPost_note _ (s1 + i), ← CmpPost_note _ (s2 + i)]
+        apply ih _ (i + 1) (by omega) (by omega)
         intro j hj
+        simp only [rd_note]
         by_cases hji : j = i
         · subst hji; exact hab
         · exact hpre j (by omega)
-      · rw [if_pos (by simpa using hab)]
-        exact Or.inr ⟨i, hlt, hpre, hab, rfl⟩
     · rw [if_neg hlt]
       have : i = n := by omega
       subst this
       exact Or.inl ⟨rfl, hpre⟩
 
-theorem compareBytes_spec (m : Mem) (s1 s2 n : Nat) : CmpPost m s1 s2 n (compareBytes m s1 s2 n) :=
-  compareBytesLoop_spec m s1 s2 n n 0 (by omega) (by omega) (fun j hj => by omega)
+theorem compareBytes_spec (m : Mem) (s1 s2 n : Nat) : CmpPost m s1 s2 n (compareBytes m s1 s2 n).2 :=
+  compareBytesLoop_spec s1 s2 n n m 0 (by omega) (by omega) (fun j hj => by omega)
+
+/-- what the compare loop touches: loads of `s1[i]`, `s2[i]` with `i < n` only, no store, and the memory content
+(and `bad`) comes back as it was -/
+def CmpAcc (m0 m' : Mem) (s1 s2 n : Nat) : Prop :=
+  (∀ a, a ∈ m'.rlog → a ∈ m0.rlog ∨ (∃ i, i < n ∧ (a = s1 + i ∨ a = s2 + i))) ∧
+  m'.wlog = m0.wlog ∧ m'.bad = m0.bad ∧ ∀ x, m'.rd x = m0.rd x
+
+theorem compareBytesLoop_acc (s1 s2 n : Nat) : ∀ (f : Nat) (m : Mem) (i : Nat),
+    CmpAcc m (compareBytesLoop f m s1 s2 n i).1 s1 s2 n := by
+  intro f
+  induction f with
+  | zero => intro m i; exact ⟨fun _ h => Or.inl h, rfl, rfl, fun _ => rfl⟩
+  | succ f ih =>
+    intro m i
+    unfold compareBytesLoop
+    by_cases hlt : i < n
+    · rw [if_pos hlt]
+      have step : CmpAcc m ((m.note (s1 + i)).note (s2 + i)) s1 s2 n := by
+        refine ⟨fun a ha => ?_, rfl, rfl, fun _ => rfl⟩
+        simp only [rlog_note, List.mem_cons] at ha
+        rcases ha with h | h | h
+        · exact Or.inr ⟨i, hlt, Or.inr h⟩
+        · exact Or.inr ⟨i, hlt, Or.inl h⟩
+        · exact Or.inl h
+      simp only []
+      split
+      · exact step
+      · have h2 := ih ((m.note (s1 + i)).note (s2 + i)) (i + 1)
+        refine ⟨fun a ha => ?_, h2.2.1.trans step.2.1, h2.2.2.1.trans step.2.2.1, fun x => (h2.2.2.2 x).trans (step.2.2.2 x)⟩
+        rcases h2.1 a ha with h | h
+        · exact step.1 a h
+        · exact Or.inr h
+    · rw [if_neg hlt]
+      exact ⟨fun _ h => Or.inl h, rfl, rfl, fun _ => rfl⟩
+
+theorem compareBytes_acc (m : Mem) (s1 s2 n : Nat) : CmpAcc m (compareBytes m s1 s2 n).1 s1 s2 n :=
+  compareBytesLoop_acc s1 s2 n n m 0
 
 end TinyVerif.MemFns
